@@ -35,6 +35,7 @@ type c08Req struct {
 	M    string `json:"m"`
 	Path string `json:"path"`
 	Body string `json:"body,omitempty"`
+	Auth string `json:"auth,omitempty"` // Authorization header
 }
 
 func (r c08Req) String() string {
@@ -54,8 +55,17 @@ type c08Scen struct {
 	// their interleaving at operation granularity is legitimate; only panic,
 	// deadlock, data race and non-2xx answers are judged.
 	SafetyOnly bool `json:"safety_only,omitempty"`
-	Bound      int  `json:"bound"` // preemption bound in the quick tier (thorough: +1)
+	// Solo: the requests touch no shared provider, so "the response it would get if it were the only request in
+	// flight" is taken literally: every request must be answered exactly as on a fresh server on which nothing but the
+	// setup has run — also when the requests simply follow each other (state kept between requests is interference too).
+	Solo bool `json:"solo,omitempty"`
+	// seqMismatch (Solo scenarios): set by c08Prepare when already a sequential order of the requests on one server
+	// answers differently from the solo answers
+	seqMismatch string
+	Bound       int `json:"bound"` // preemption bound in the quick tier (thorough: +1)
 }
+
+const c08Secret = "c08-secret"
 
 func get(p string) c08Req        { return c08Req{M: "GET", Path: p} }
 func post(p, body string) c08Req { return c08Req{M: "POST", Path: p, Body: body} }
@@ -174,6 +184,37 @@ const LIMIT = 10
 }
 `
 	out = append(out, c08Scen{Name: "constants/route-declares-constant-name", Src: consts, Threads: [][]c08Req{{get("/shadow")}, {get("/read")}}, After: []c08Req{get("/read")}, Bound: 2})
+	// H8: the `auth` object a route with an auth declaration sees is per request: one request editing it must not be
+	// visible to another (GLYPH_JWT_SECRET is set by the harness; both requests carry the configured token)
+	authSrc := `
+@ GET /promote {
+  + auth(jwt)
+  $ auth.user.role = "admin"
+  > {role: auth.user.role}
+}
+@ GET /me {
+  + auth(jwt)
+  > {user: auth.user}
+}
+`
+	tok := "Bearer " + c08Secret
+	out = append(out, c08Scen{Name: "auth/route-edits-its-auth-object", Src: authSrc,
+		Threads: [][]c08Req{{{M: "GET", Path: "/promote", Auth: tok}}, {{M: "GET", Path: "/me", Auth: tok}}}, After: []c08Req{{M: "GET", Path: "/me", Auth: tok}}, Bound: 2})
+	// H9: a request refused by a limit leaves nothing behind: afterwards a request just inside the limit is answered
+	// as on a fresh server (the evaluation-depth counter is shared by all requests of an interpreter)
+	limits := `
+! down(n: int): int {
+  if n <= 0 {
+    > 0
+  }
+  > 1 + down(n - 1)
+}
+@ GET /down/:n {
+  > {r: down(parseInt(n))}
+}
+`
+	out = append(out, c08Scen{Name: "limits/refused-evaluation-then-one-just-inside-the-limit", Src: limits,
+		Threads: [][]c08Req{{get("/down/TOODEEP"), get("/down/TOODEEP"), get("/down/TOODEEP"), get("/down/MAXOK")}}, After: []c08Req{get("/down/MAXOK")}, Bound: 0})
 	// H5: redis provider, single operations
 	redis := `
 @ POST /incr/:k {
@@ -256,6 +297,12 @@ const LIMIT = 10
 			c08Scen{Name: "pure/two-requests-each", Src: pure, Threads: [][]c08Req{{get("/sum/2"), get("/obj/a")}, {get("/obj/b"), get("/sum/3")}}, Bound: 1},
 		)
 	}
+	for i := range out {
+		switch c08Family(out[i].Name) {
+		case "pure", "functions", "generics", "constants", "auth", "limits":
+			out[i].Solo = true
+		}
+	}
 	return out
 }
 
@@ -298,13 +345,27 @@ func (s *c08Sys) do(r c08Req) string {
 		req.Header.Set("Content-Type", "application/json")
 	}
 	req.RemoteAddr = "10.0.0.1:1234"
+	if r.Auth != "" {
+		req.Header.Set("Authorization", r.Auth)
+	}
 	rec := httptest.NewRecorder()
 	s.h.ServeHTTP(rec, req)
 	return fmt.Sprintf("%d %s", rec.Code, strings.TrimSpace(rec.Body.String()))
 }
 
 // c08Sequential runs the requests in the given global order on a fresh system.
-func c08Sequential(mod *ast.Module, mode string, sc c08Scen, order []int) ([]string, error) {
+func c08Sequential(mod *ast.Module, mode string, sc c08Scen, order []int) (flat []string, err error) {
+	// inside a controlled execution (default schedule): goroutines the server starts (cleanup tickers of the auth
+	// and rate-limit middlewares, the websocket hub) belong to that execution and end with it, instead of waking up
+	// inside a later explored execution
+	x := vrt.RunOnce(vrt.Config{MaxSteps: 2000000}, nil, func() { flat, err = c08SequentialIn(mod, mode, sc, order) })
+	if err == nil && x.Outcome.Kind != "ok" {
+		err = fmt.Errorf("sequential baseline ended with %s: %s", x.Outcome.Kind, strings.SplitN(x.Outcome.Detail, "\n", 2)[0])
+	}
+	return flat, err
+}
+
+func c08SequentialIn(mod *ast.Module, mode string, sc c08Scen, order []int) ([]string, error) {
 	s, err := c08Build(mod, mode)
 	if err != nil {
 		return nil, err
@@ -325,6 +386,45 @@ func c08Sequential(mod *ast.Module, mode string, sc c08Scen, order []int) ([]str
 	}
 	for _, r := range sc.After {
 		flat = append(flat, s.do(r))
+	}
+	return flat, nil
+}
+
+// c08SoloVector: every request of the scenario answered on its own fresh system (after the setup requests).
+// The requests are answered in the given direction (reverse: last request first) — a request's answer on a FRESH
+// server must not depend on what other servers of the same process did before (package-level state).
+func c08SoloVector(mod *ast.Module, mode string, sc c08Scen, reverse bool) ([]string, error) {
+	var reqs []c08Req
+	for _, th := range sc.Threads {
+		reqs = append(reqs, th...)
+	}
+	reqs = append(reqs, sc.After...)
+	flat := make([]string, len(reqs))
+	for k := range reqs {
+		idx := k
+		if reverse {
+			idx = len(reqs) - 1 - k
+		}
+		r := reqs[idx]
+		var err error
+		x := vrt.RunOnce(vrt.Config{MaxSteps: 2000000}, nil, func() {
+			s, berr := c08Build(mod, mode)
+			if berr != nil {
+				err = berr
+				return
+			}
+			defer s.stop()
+			for _, q := range sc.Setup {
+				s.do(q)
+			}
+			flat[idx] = s.do(r)
+		})
+		if err == nil && x.Outcome.Kind != "ok" {
+			err = fmt.Errorf("solo baseline ended with %s: %s", x.Outcome.Kind, strings.SplitN(x.Outcome.Detail, "\n", 2)[0])
+		}
+		if err != nil {
+			return nil, err
+		}
 	}
 	return flat, nil
 }
@@ -456,6 +556,7 @@ type c08Replay struct {
 	Mode    string `json:"mode"`
 	Depth   int    `json:"depth"`
 	Choices []int  `json:"choices"`
+	Seq     bool   `json:"sequential,omitempty"` // the finding is visible without concurrency (Solo scenarios)
 }
 
 // c08Depth finds the recursion depth used by the recursion scenario: 55% of the
@@ -485,10 +586,24 @@ func c08Depth(src string, mode string) int {
 			hi = mid - 1
 		}
 	}
+	c08MaxOK[mode] = lo
 	return lo*55/100 + 1
 }
 
+// c08MaxOK: per mode, the deepest /down/:n that succeeds alone (set by c08Depth)
+var c08MaxOK = map[string]int{}
+
 func c08Prepare(sc c08Scen, mode string, depth int) (c08Scen, *ast.Module, map[string]bool, error) {
+	if strings.HasPrefix(sc.Name, "limits/") {
+		for t := range sc.Threads {
+			for i := range sc.Threads[t] {
+				sc.Threads[t][i].Path = strings.NewReplacer("TOODEEP", fmt.Sprint(2*c08MaxOK[mode]+10), "MAXOK", fmt.Sprint(c08MaxOK[mode])).Replace(sc.Threads[t][i].Path)
+			}
+		}
+		for i := range sc.After {
+			sc.After[i].Path = strings.NewReplacer("TOODEEP", fmt.Sprint(2*c08MaxOK[mode]+10), "MAXOK", fmt.Sprint(c08MaxOK[mode])).Replace(sc.After[i].Path)
+		}
+	}
 	if strings.Contains(sc.Name, "recursion") {
 		d := fmt.Sprint(depth)
 		for t := range sc.Threads {
@@ -506,6 +621,32 @@ func c08Prepare(sc c08Scen, mode string, depth int) (c08Scen, *ast.Module, map[s
 		counts[t] = len(sc.Threads[t])
 	}
 	allowed := map[string]bool{}
+	if sc.Solo {
+		// reverse direction first: requests that only read come last in the scenarios, so their answers are
+		// taken before the writers of the scenario have run anywhere in this process
+		solo, err := c08SoloVector(mod, mode, sc, true)
+		if err != nil {
+			return sc, nil, nil, err
+		}
+		fwd, err := c08SoloVector(mod, mode, sc, false)
+		if err != nil {
+			return sc, nil, nil, err
+		}
+		if strings.Join(fwd, " || ") != strings.Join(solo, " || ") {
+			sc.seqMismatch = fmt.Sprintf("each request on its own fresh server: answered %q when the requests are served last-to-first and %q first-to-last — what one server did changes what a later fresh server answers (package-level state)", solo, fwd)
+		}
+		allowed[strings.Join(solo, " || ")] = true
+		for _, ord := range c08Orders(counts) {
+			flat, err := c08Sequential(mod, mode, sc, ord)
+			if err != nil {
+				return sc, nil, nil, err
+			}
+			if strings.Join(flat, " || ") != strings.Join(solo, " || ") && sc.seqMismatch == "" {
+				sc.seqMismatch = fmt.Sprintf("requests sent one after the other (thread order %v) on one server are answered %q; each alone on a fresh server is answered %q", ord, flat, solo)
+			}
+		}
+		return sc, mod, allowed, nil
+	}
 	for _, ord := range c08Orders(counts) {
 		flat, err := c08Sequential(mod, mode, sc, ord)
 		if err != nil {
@@ -518,6 +659,7 @@ func c08Prepare(sc c08Scen, mode string, depth int) (c08Scen, *ast.Module, map[s
 
 func TestVerif_C08(t *testing.T) {
 	c05QuietC08()
+	os.Setenv("GLYPH_JWT_SECRET", c08Secret)
 	p := vk.Env()
 	res := vk.NewResult("one evaluation = one complete schedule of one scenario (2-3 request threads on one long-lived server) in one execution mode; distinct = distinct response vectors observed per scenario and mode")
 	if p.Replay != "" {
@@ -543,7 +685,7 @@ func TestVerif_C08(t *testing.T) {
 				continue
 			}
 			depth := 0
-			if strings.Contains(sc0.Name, "recursion") {
+			if strings.Contains(sc0.Name, "recursion") || strings.HasPrefix(sc0.Name, "limits/") {
 				if _, ok := depthFor[mode]; !ok {
 					depthFor[mode] = c08Depth(sc0.Src, mode)
 				}
@@ -561,6 +703,15 @@ func TestVerif_C08(t *testing.T) {
 					panic(fmt.Sprintf("c08: scenario %s cannot be built in interpreted mode: %v", sc0.Name, err))
 				}
 				continue
+			}
+			if sc.Solo && p.Shard == 0 {
+				for v := range allowed {
+					res.Note("%s/%s answers when alone: %s", sc.Name, mode, v)
+				}
+			}
+			if sc.seqMismatch != "" && p.Shard == 0 {
+				res.Violate(mode+"/"+c08Family(sc.Name)+"/state-kept-between-requests/"+sc.Name[strings.Index(sc.Name, "/")+1:],
+					fmt.Sprintf("%s in %s mode: %s", sc.Name, mode, sc.seqMismatch), c08Replay{Scen: sc.Name, Mode: mode, Depth: depth, Seq: true})
 			}
 			bound := sc.Bound
 			if p.Thorough {
@@ -623,9 +774,19 @@ func c08DoReplay(rp c08Replay, res *vk.Result, thorough bool) bool {
 		if sc0.Name != rp.Scen {
 			continue
 		}
+		if strings.HasPrefix(sc0.Name, "limits/") {
+			c08Depth(sc0.Src, rp.Mode) // calibrates c08MaxOK
+		}
 		sc, mod, allowed, err := c08Prepare(c08Clone(sc0), rp.Mode, rp.Depth)
 		if err != nil {
 			return false
+		}
+		if rp.Seq {
+			fmt.Printf("replay %s/%s sequential -> %s\n", sc.Name, rp.Mode, sc.seqMismatch)
+			if sc.seqMismatch != "" {
+				res.Violate(rp.Mode+"/"+c08Family(sc.Name)+"/state-kept-between-requests/"+sc.Name[strings.Index(sc.Name, "/")+1:], sc.seqMismatch, rp)
+			}
+			return sc.seqMismatch != ""
 		}
 		var o c08Obs
 		var first string
